@@ -119,14 +119,20 @@ class Tmatrix(ScatteringTheory):
         eps = rxy/rz
         NP = -1 - int(iscyl)
         ndgs = 5
-        alpha = scatterer.rotation[2] * 180 / np.pi
-        beta = scatterer.rotation[1] * 180 / np.pi
+        # The Fortran code needs 0 <= alpha <= 360 and 0 <= beta <= 180
+        # degrees. The symmetry axis points along (beta, alpha) in
+        # spherical coordinates, so out-of-range angles can be folded back.
+        alpha = (scatterer.rotation[2] * 180 / np.pi) % 360
+        beta = (scatterer.rotation[1] * 180 / np.pi) % 360
+        if beta > 180:
+            beta = 360 - beta
+            alpha = (alpha + 180) % 360
 
         # FIXME: Why does the incident polarization have to be set to  (1, 0)?
         thet0 = 0
         thet = angles[:, 0]
         phi0 = 0
-        phi = angles[:, 1]
+        phi = angles[:, 1] % 360
         nang = angles.shape[0]
 
         args = [axi, rat, lam, mrr, mri, eps, NP, ndgs, alpha, beta,
@@ -138,6 +144,10 @@ class Tmatrix(ScatteringTheory):
         med_wavelen = args[2]
         nang = args[-1]
         s11, s12, s21, s22 = ampld(*args)
+        if np.isnan(s11).any():
+            raise TmatrixFailure(
+                "The size or aspect ratio of the scatterer is beyond the "
+                "limits of the T-matrix code, or it did not converge.")
         for s in [s11, s12, s21, s22]:
             s *= (-2j*np.pi/med_wavelen)
         scat_matr = np.moveaxis(np.array([[s11, s12], [s21, s22]]), -1, 0)
